@@ -28,7 +28,7 @@ from harness.common import Result, run_driver
 from harness.knownsig import auth_len127
 
 ASSUMPTIONS = [
-    "OIDs are in the domain x690 can carry: at least two arcs and 40*arc0+arc1 <= 127 (see DESIGN.md, C05 domain note)",
+    "generated OIDs have at least two arcs and 40*arc0+arc1 < 120; OID values 2.x with x >= 40 are mis-decoded by x690 (known finding C06-x690-oid-second-arc, exercised by the second-arc suite)",
 ]
 FORMS = ["min", "long1", "long2", "long3", "long4"]
 CLS_KIND = {"Integer": "int", "OctetString": "str", "IpAddress": "ip", "Counter": "counter32", "Gauge": "gauge32", "TimeTicks": "ticks", "Opaque": "opaque", "NsapAddress": "nsap", "Counter64": "counter64"}
